@@ -973,6 +973,8 @@ class Path:
             if step:
                 step()
             spec.check_inv(self, 'inv-preserved')
+            if getattr(spec, 'mods', None) is not None:
+                spec.check_loop_frame(self)
             if v0 is not None:
                 v1 = spec.variant(self)
                 self.oblige(spec.name('variant-decreases'), 'variant', self.compare_op(ast.Lt(), v1, v0))
